@@ -106,7 +106,8 @@ def _pca_large_cases(th):
 
 def _model_large_cases(th):
     # one request that resolves to more than 2**18 (thorough: 2**20) stored rows
-    for i, (ns, rows) in enumerate([(2 ** 18 + 5 + 60000, False), (2 * 2 ** 18 + 2 ** 17 + 9, True)] +
+    for i, (ns, rows) in enumerate([(2 ** 18 + 5 + 60000, False), (2 * 2 ** 18 + 2 ** 17 + 9, True),
+                                    (80000, True)] +      # a row table of 40 000 entries
                                    ([(2 ** 20 + 3, False), (2 ** 16 + 100, True)] if th else [])):
         yield {'k': 'model-large', 'ns': ns, 'seed': i + 1, 'rows': rows}
 
